@@ -424,6 +424,38 @@ func (cg *caseGen) lrGrammar() {
 
 // --------------------------------------------------- non-terminating shapes
 
+// wideGrammar: S <- (k1 / k2 / ... / kn) rest, n = 25..70 different literals and classes, some under a negative
+// predicate, then something that may fail later.
+func (cg *caseGen) wideGrammar() {
+	cg.chCount = 0
+	cg.cur = 0
+	n := 25 + cg.r.IntN(46)
+	ch := cg.newChoice()
+	for i := 0; i < n; i++ {
+		var k *pvcase.Expr
+		switch cg.r.IntN(6) {
+		case 0:
+			k = mkClass([]rune{rune('A' + i%26), rune('0' + i%10)}, nil, nil, false, false, cg.flags.BasicLatin)
+		case 1:
+			k = seqOf(un(pvcase.KNot, mkLit([]rune(fmt.Sprintf("n%02d", i)), false)), mkLit([]rune(fmt.Sprintf("k%02d", i)), false))
+		default:
+			k = mkLit([]rune(fmt.Sprintf("k%02d", i)), cg.r.IntN(8) == 0)
+		}
+		ch.Kids = append(ch.Kids, k)
+	}
+	var body *pvcase.Expr = ch
+	switch cg.r.IntN(3) {
+	case 0:
+		body = seqOf(un(pvcase.KStar, cg.nonEmptyLit()), ch, un(pvcase.KNot, &pvcase.Expr{Kind: pvcase.KAny}))
+	case 1:
+		body = seqOf(un(pvcase.KNot, cg.nonEmptyLit()), ch)
+	}
+	cg.rules = []*pvcase.Rule{{Name: "S", Expr: body}}
+	cg.names = []string{"S"}
+	cg.ruleNull = []bool{false}
+	cg.refd = []bool{true}
+}
+
 func (cg *caseGen) divergentGrammar() {
 	cg.chCount = 0
 	cg.cur = 0
@@ -615,6 +647,8 @@ func (g *generator) genCase(prof string) ([]*pvcase.Case, *caseGen) {
 		o.Stats = g.chance(0.15)
 	}
 	divergent, lrBudget := false, false
+	// a keyword table: dozens of different terminals tried at one offset (the expected set of a failure there lists all)
+	wide := (prof == "core" || prof == "utf8") && g.chance(0.03)
 	switch prof {
 	case "core":
 		if g.chance(0.15) {
@@ -674,6 +708,8 @@ func (g *generator) genCase(prof string) ([]*pvcase.Case, *caseGen) {
 		switch {
 		case prof == "lr" || lrBudget:
 			cg.lrGrammar()
+		case wide:
+			cg.wideGrammar()
 		case divergent && !cg.f.wild:
 			cg.divergentGrammar()
 		default:
@@ -694,7 +730,7 @@ func (g *generator) genCase(prof string) ([]*pvcase.Case, *caseGen) {
 				cg.rules[0].Expr = e
 			}
 		}
-		if prof != "lr" && !lrBudget && !divergent && cg.f.act && cg.f.errP > 0 && len(cg.rules) >= 2 && cg.chance(0.12) {
+		if prof != "lr" && !lrBudget && !wide && !divergent && cg.f.act && cg.f.errP > 0 && len(cg.rules) >= 2 && cg.chance(0.12) {
 			cg.dupErrShape()
 		}
 		c.Grammar.Rules = cg.rules
